@@ -203,14 +203,15 @@ EvQ(L) == Ter({"qeq", "qne", "qlt", "qle", "qgt", "qge"}, {Col(0), Lit(1)}, {Col
 EvAtomsInt(L) == EvCmp(L) \cup EvIn(L) \cup EvTupIn(L) \cup EvNull \cup EvQ(L) \cup {T1("true"), T1("false")}
 SLeafAll == {SCol(0), SCol(1)} \cup {SLit(i) : i \in 1..(Len(StrLits) - 1)}
 EvStrVal == {SCol(0), SCol(1)} \cup Bin({"concat"}, {SCol(0), SCol(1)}, SLeafAll)
-EvAtomsStr(L) == Bin({"starts", "ends", "seq", "sne"}, EvStrVal, SLeafAll) \cup Un({"sisnull", "snotnull"}, EvStrVal)
+EvStrVal0 == {SCol(0), SCol(1), T1("concat") \o SCol(0) \o SCol(1), T1("concat") \o SCol(0) \o SLit(3)}
+EvAtomsStr(L) == LET SV == IF L = 0 THEN EvStrVal0 ELSE EvStrVal IN
+                 Bin({"starts", "ends", "seq", "sne"}, SV, SLeafAll) \cup Un({"sisnull", "snotnull"}, SV)
 \* boolean structure over a basis that contains every truth value on some row and every operand class of interest
 EvBasis == { T1("eq") \o Col(0) \o Lit(1), T1("eq") \o Col(1) \o Lit(0), T1("lt") \o Col(0) \o Col(1),
              T1("eq") \o (T1("mod") \o Col(0) \o Lit(2)) \o Col(1),
              <<Tok("in", 2)>> \o Col(0) \o Lit(1) \o Lit(NULL), <<Tok("notin", 0)>> \o Col(1),
              T1("isnull") \o Col(1), T1("true"), T1("false") }
 EvBasisS == { T1("eq") \o Col(0) \o Lit(1), T1("eq") \o Col(1) \o Lit(0),
-              T1("eq") \o (T1("mod") \o Col(0) \o Lit(2)) \o Col(1),
               <<Tok("in", 2)>> \o Col(0) \o Lit(1) \o Lit(NULL), <<Tok("notin", 0)>> \o Col(1) }
 EvBool1(L) == EvBasis \cup Bin({"and", "or"}, EvBasis, EvBasis) \cup Un({"not"}, EvBasis)
 EvBool2(L) == LET Bs == IF L = 0 THEN EvBasisS ELSE EvBasis
@@ -243,7 +244,8 @@ ArL == {Col(0), Col(1), Lit(2)}
 Ar1 == Bin(ArK, Leaf01, Leaf01) \cup Un({"neg"}, Leaf01)
 Ar1S == Bin(ArK, ArL, ArL) \cup Un({"neg"}, {Col(0), Lit(-1), Lit(2)})
 ArD1S == ArL \cup Ar1S
-Arith2(L) == Ar1 \cup Un({"neg"}, Ar1S) \cup Bin(ArK, Ar1S, ArL) \cup Bin(ArK, ArL, Ar1S)
+Arith2(L) == LET O == IF L = 0 THEN {Col(1), Lit(2)} ELSE ArL IN       \* the leaf beside a nested node
+             Ar1 \cup Un({"neg"}, Ar1S) \cup Bin(ArK, Ar1S, O) \cup Bin(ArK, O, Ar1S)
              \cup {T1(o) \o (T1(p) \o Col(0) \o Col(1)) \o (T1(q) \o Lit(2) \o Col(0)) : o \in ArK, p \in ArK, q \in ArK}
              \cup Bin(XK, Ar1S, {Col(1)}) \cup Bin(XK, {Col(0)}, Ar1S)
              \cup Bin(ArK, Bin(XK, {Col(0)}, {Col(1)}), {Lit(2)}) \cup Bin(ArK, {Lit(2)}, Bin(XK, {Col(0)}, {Col(1)}))
@@ -255,8 +257,11 @@ BoolK == {"and", "or"}
 BoolB == {T1("eq") \o Col(0) \o Lit(1), T1("lt") \o Col(0) \o Col(1), T1("isnull") \o Col(1), T1("true"),
           T1("between") \o Col(0) \o Lit(-1) \o Lit(1), <<Tok("in", 2)>> \o Col(0) \o Lit(1) \o Lit(NULL)}
 BoolB1 == BoolB \cup Bin(BoolK, BoolB, BoolB) \cup Un({"not"}, BoolB)
-Bool2(L) == Un({"not"}, Cmp0) \cup Bin(BoolK, Cmp0, BoolB) \cup Bin(BoolK, BoolB, Cmp0)
-            \cup Bin(BoolK, BoolB1, BoolB) \cup Bin(BoolK, BoolB, BoolB1) \cup Un({"not"}, BoolB1)
+BoolB4 == {T1("eq") \o Col(0) \o Lit(1), T1("lt") \o Col(0) \o Col(1), T1("isnull") \o Col(1), T1("true")}
+BoolB41 == BoolB4 \cup Bin(BoolK, BoolB4, BoolB4) \cup Un({"not"}, BoolB4)
+Bool2(L) == LET N1 == IF L = 0 THEN BoolB41 ELSE BoolB1 IN
+            Un({"not"}, Cmp0) \cup Bin(BoolK, Cmp0, BoolB) \cup Bin(BoolK, BoolB, Cmp0)
+            \cup Bin(BoolK, N1, BoolB) \cup Bin(BoolK, BoolB, N1) \cup Un({"not"}, BoolB1)
             \cup (IF L = 0 THEN {} ELSE Bin(BoolK, Cmp0, Cmp0) \cup Bin(BoolK, BoolB1, BoolB1))
 \* comparisons / predicates over arithmetic, arithmetic over predicates (booleans are integers on SQLite), CASE, CAST, scalar subquery
 CaseLt == Ter({"case"}, {T1("lt") \o Col(0) \o Col(1)}, {Col(0)}, {Col(1)})
@@ -271,7 +276,7 @@ Mixed2(L) == LET A1 == IF L = 0 THEN Bin(ArK, {Col(0)}, {Col(1), Lit(2)}) \cup {
           \cup Ter({"case"}, BoolB, A1 \cup ArL, {Lit(0), T1("neg") \o Col(1)}) \cup Bin(ArK, Ter({"case"}, BoolB, {Col(0)}, {Col(1)}), ArL)
           \cup Bin(ArK, ArL, CaseLt) \cup Bin(CmpK, CaseLt, ArL)
           \cup Un({"not"}, Bin(CmpK, A1, {Col(1)})) \cup Un({"not"}, Un({"not"}, BoolB)) \cup Un({"not"}, Un({"cast", "subq"}, BoolB))
-SLeaf01(L) == IF L = 0 THEN {SCol(0), SCol(1), SLit(6), SLit(7)} ELSE {SCol(0), SCol(1), SLit(2), SLit(3), SLit(6), SLit(7), SLit(10)}
+SLeaf01(L) == IF L = 0 THEN {SCol(0), SCol(1), SLit(6)} ELSE {SCol(0), SCol(1), SLit(2), SLit(3), SLit(6), SLit(7), SLit(10)}
 SVal1(L) == Bin({"concat"}, SLeaf01(L), SLeaf01(L))
 SValD1(L) == SLeaf01(L) \cup SVal1(L)
 SPred0 == Bin({"like", "nlike", "seq", "sne", "starts", "ends", "contains"}, {SCol(0)}, {SCol(1), SLit(6), SLit(8)}) \cup Un({"sisnull", "snotnull"}, {SCol(0)})
